@@ -413,7 +413,7 @@ impl Check for C11 {
         }
     }
     fn rule(&self) -> String {
-        "corpus = definitions sampled at fixed strides from the conventional family (with/without version), general shapes, adjacent groups, the documented family, plus env-backed, max_width(40), fallback_to_usage + version, custom help names; every definition is compiled into the harness executable and run through the real OptionParser::run() in a child process (execve with the argument vector as bytes, argv[0] set explicitly, empty environment); inputs = every vector of the token tree over the definition's names, words, an empty item, a non-UTF-8 word, --name=\\xff, --help, --version and the completion marker; argv[0] in {plain, absolute path, relative path, name with space, non-UTF-8, empty, names with dots / a version suffix / an extension / a leading dot / a trailing slash / non-ASCII} for vectors of length <= 1; oracle = (1) for the conventional part of the corpus the outcome class prescribed by the reference scanner (value / stderr failure / usage on stdout for a level with fallback_to_usage that got no items); (2) in-process run_inner with the name taken from argv[0]'s file name: value -> stdout 'BODY <debug>' / status 0 / empty stderr; stdout -> text + newline on stdout / 0 / empty stderr, no BODY; stderr -> 'Error: ' + text on stderr / status 1 / empty stdout / non-empty message; completion -> text on stdout / 0; plus, for vectors of length <= 1, the same child built with the dull-color and the bright-color feature (streams are pipes, NO_COLOR unset and set): identical plain bytes; evaluation = one spawned process".into()
+        "corpus = definitions sampled at fixed strides from the conventional family (with/without version), general shapes, adjacent groups, the documented family, plus env-backed, max_width(40), fallback_to_usage + version, custom help names; every definition is compiled into the harness executable and run through the real OptionParser::run() in a child process (execve with the argument vector as bytes, argv[0] set explicitly, empty environment); inputs = every vector of the token tree over the definition's names, words, an empty item, a non-UTF-8 word, --name=\\xff, --help, --version and the completion marker; argv[0] in {plain, absolute path, relative path, name with space, non-UTF-8, empty, names with dots / a version suffix / an extension / a leading dot / a trailing slash / non-ASCII} for vectors of length <= 1; oracle = (1) for the conventional part of the corpus the outcome class prescribed by the reference scanner (value / stderr failure / usage on stdout for a level with fallback_to_usage that got no items); (2) in-process run_inner with the name taken from argv[0]'s file name: value -> stdout 'BODY <debug>' / status 0 / empty stderr; stdout -> text + newline on stdout / 0 / empty stderr, no BODY; stderr -> 'Error: ' + text on stderr / status 1 / empty stdout / non-empty message; completion -> text on stdout / 0; plus, for vectors of length <= 1, the same child built with the dull-color and the bright-color feature (streams are pipes, NO_COLOR unset and set): identical plain bytes; evaluation = one spawned process; plus short names of two and three bytes with clusters of them and a chain of adjacent commands under many; a vector on which run_inner panics has no prediction but the child must still end with status 0 or 1".into()
     }
     fn bounds(&self, tier: Tier) -> Value {
         json!({"corpus": corpus().len(), "vector_length": tier.pick(2, 3)})
